@@ -16,7 +16,6 @@ from .common import RES, interp, returns
 LEVEL = "other"
 
 FAMILY = ["IdealReservoir", "SinglePhaseReservoir", "TwoPhaseReservoir"]
-CACHE = "recovery"
 OUTPUTS = ("time", "pseudopressure")
 READERS = ["recovery_factor", "recovery_factor_interpolator", "alpha_scaled", "fvf_scale"]
 CTOR = ("__init__", "__post_init__")
@@ -44,14 +43,30 @@ def self_events(p, kinds):
     return [e for e in p.events if e.kind in kinds and isinstance(e.data.get("base"), Inst) and e.data["base"].name == "self"]
 
 
-def cache_sources(ctx):
+def cache_attribute(ctx):
+    """the attribute under which recovery_factor keeps the result it returns (today: `recovery`); discovered from the
+    code - the stored value is the returned value - so that a consistent rename is not an alarm and a partial one is"""
+    found = set()
+    for cls in FAMILY:
+        it, m, paths = method_paths(ctx, cls, "recovery_factor")
+        for p in returns(paths):
+            rv = it.to_nf(p.value)
+            for e in self_events(p, ("store_attr",)):
+                if it.to_nf(e.data["value"]) == rv:
+                    found.add(e.data["attr"])
+    if len(found) > 1:
+        raise AnalysisError(f"recovery_factor keeps its result under several attributes: {sorted(found)}")
+    return next(iter(found), None)
+
+
+def cache_sources(ctx, cache):
     """top-level self attributes the cached recovery is computed from"""
     src = set()
     for cls in FAMILY:
         it, m, paths = method_paths(ctx, cls, "recovery_factor")
         for p in returns(paths):
             for e in self_events(p, ("store_attr",)):
-                if e.data["attr"] == CACHE:
+                if e.data["attr"] == cache:
                     for s in nf.symbols(it.to_nf(e.data["value"])):
                         if s.startswith("self."):
                             src.add(s.split(".")[1])
@@ -67,7 +82,10 @@ def family_rules(ctx, ids):
     """Typestate / effect rules over the reservoir family; `ids` maps clause letters to the rule ids to
     report under (a clause mapped to None is skipped) - C01 and C17 reuse clauses b and a."""
     P = ctx.P
-    sources = cache_sources(ctx)
+    CACHE = cache_attribute(ctx)
+    if CACHE is None:
+        raise AnalysisError("recovery_factor no longer keeps its result on the object: the cache state machine has no cache")
+    sources = cache_sources(ctx, CACHE)
     if not {"time", "pseudopressure"} <= sources:
         raise AnalysisError(f"cached recovery does not depend on time/pseudopressure any more: {sorted(sources)}")
     ctx.notes.append("sources of the cached recovery: " + ", ".join(sorted(sources)))
@@ -75,9 +93,14 @@ def family_rules(ctx, ids):
     for cls in FAMILY:
         fields |= set(P.cls(RES + cls).all_fields())
     n_methods = 0
+    # private helpers that are only ever called from inside the package are not entry points of a call history:
+    # they are analysed, inlined, as part of the public methods that call them
+    from ..views import internal_only_names
+
+    internal = internal_only_names({mn: mi.tree for mn, mi in P.modules.items()})
     for cls in FAMILY:
         ci = P.cls(RES + cls)
-        names = sorted({n for c in ci.mro() for n in c.methods if n not in CTOR and not n.startswith("__")})
+        names = sorted({n for c in ci.mro() for n in c.methods if n not in CTOR and not n.startswith("__") and n not in internal})
         for name in names:
             m = ci.lookup(name)
             if unreachable_after_raise(m.node):
@@ -90,7 +113,7 @@ def family_rules(ctx, ids):
             foreign_writes = []
             for p in returns(paths):
                 tag = ", ".join(("" if c else "not ") + d[:70] for _k, c, d in p.decisions) or "straight"
-                absent = any(d.startswith("hasattr(self, 'recovery')") and not c for _k, c, d in p.decisions)
+                absent = any(d.startswith(f"hasattr(self, '{CACHE}')") and not c for _k, c, d in p.decisions)
                 state = "absent" if absent else "present-old"
                 written = set()
                 for e in self_events(p, ("store_attr", "del_attr")):
@@ -118,11 +141,11 @@ def family_rules(ctx, ids):
                     leftovers = set()
                     for e in p.events:
                         for v in list((e.data.get("args") or {}).values()) if isinstance(e.data.get("args"), dict) else []:
-                            leftovers |= {s for s in nf.symbols(it.to_nf(v)) if s in ("self.time", "self.pseudopressure", "self.recovery")}
+                            leftovers |= {s for s in nf.symbols(it.to_nf(v)) if s in ("self.time", "self.pseudopressure", "self." + CACHE)}
                         if "value" in e.data:
-                            leftovers |= {s for s in nf.symbols(it.to_nf(e.data["value"])) if s in ("self.time", "self.pseudopressure", "self.recovery")}
+                            leftovers |= {s for s in nf.symbols(it.to_nf(e.data["value"])) if s in ("self.time", "self.pseudopressure", "self." + CACHE)}
                     for _k, _c, d in p.decisions:
-                        for s in ("self.time", "self.pseudopressure", "self.recovery"):
+                        for s in ("self.time", "self.pseudopressure", "self." + CACHE):
                             if s in d:
                                 leftovers.add(s)
                     if leftovers:
